@@ -32,6 +32,7 @@ func runC02(p *load.Program, r *oblig.Report) {
 	c02Reader(p, r)
 	c02LastOffsetSentinel(p, r)
 	c02HeaderReset(p, r)
+	c02PassedBatches(p, r)
 	c02LookupTopic(p, r)
 	varintAcrossRefills(p, r, "C02.R6 message set accounting and skipping")
 }
@@ -392,8 +393,15 @@ func c02Batch(p *load.Program, r *oblig.Report) {
 	sort.Strings(lines)
 	M := "readMessage(batch.msgs,batch.offset,key,val)"
 	okAdv, okJump := false, false
+	nPassed := 0
 	for _, l := range lines {
 		l2 := strings.ReplaceAll(l, M, "M")
+		// the third way the position may move (C02.R10): up to the end of the batches gone past, at a clean end only,
+		// and only forwards
+		if strings.HasPrefix(l2, "batch.msgs.") && strings.Contains(l2, " when ") && strings.Contains(l2, "(0 == remaining(batch.msgs))") && strings.Contains(l2, "errShortRead") && strings.Contains(l2, "errors.Is(batch.err,EOF)") && strings.Contains(l2, "(batch.offset < batch.msgs.") {
+			nPassed++
+			continue
+		}
 		if l2 == "(1 + M#0) when (nil == M#4) ∧ (nil == batch.err)" || l2 == "(1 + M#0) when (nil == batch.err) ∧ (nil == M#4)" {
 			okAdv = true
 		}
@@ -402,7 +410,7 @@ func c02Batch(p *load.Program, r *oblig.Report) {
 			okJump = true
 		}
 	}
-	r.Check(okAdv && okJump && len(lines) == 2, rule, "kafka.(*Batch).readMessage moves to delivered+1, and past the batch's last offset only at a clean end", p.Pos(rm.Pos()),
+	r.Check(okAdv && okJump && len(lines)-nPassed == 2 && nPassed <= 1, rule, "kafka.(*Batch).readMessage moves to delivered+1, and past the batch's last offset only at a clean end", p.Pos(rm.Pos()),
 		"batch.offset = offset+1 on success; batch.offset = lastOffset+1 only when short read ∧ nothing remains ∧ io.EOF ∧ lengthRemain == 0 ∧ lastOffset != -1", strings.Join(lines, " ;; "))
 	// short read → discard
 	okDisc := false
@@ -982,4 +990,95 @@ func c02LookupTopic(p *load.Program, r *oblig.Report) {
 		ok = len(args) == 1 && topicParam != nil && strings.HasSuffix(shapes[0], "topic")
 	})
 	r.Check(ok, rule, "kafka.(*Dialer).LookupPartition lists the partitions of the requested topic only", p.Pos(fn.Pos()), "c.ReadPartitions(topic)", found)
+}
+
+// c02PassedBatches: a format-2 batch tells which offsets it covers (first offset, last offset delta) even when
+// compaction left it with fewer records than offsets, or none. The reader must not stay below the end of a batch it
+// has gone past entirely, whatever follows in the response (nothing, another empty batch, a batch cut at the size
+// limit): otherwise the same offset is fetched again for ever. Three structural parts:
+// (a) readMessage skips batches without records in a loop (two in a row used to be parsed as a record and panic);
+// (b) readHeader records the end of the batch it is about to leave, from that batch's own header;
+// (c) Batch.readMessage moves its offset up to that end at a clean end of the response.
+func c02PassedBatches(p *load.Program, r *oblig.Report) {
+	const rule = "C02.R10 the reader moves past every batch it has completely gone through"
+	rm := p.Func("", "(*messageSetReader).readMessage")
+	rh := p.Func("", "(*messageSetReader).readHeader")
+	brm := p.Func("", "(*Batch).readMessage")
+	if rm == nil || rh == nil || brm == nil {
+		r.Lost(rule, "kafka.(*messageSetReader).readMessage / readHeader / (*Batch).readMessage")
+		return
+	}
+	// (a)
+	var hdrCall ssa.Instruction
+	an.EachInstr(rm, func(ins ssa.Instruction) {
+		if c, ok := ins.(*ssa.Call); ok && c.Parent() == rm && calleeNamed(&c.Call, "messageSetReader", "readHeader") {
+			hdrCall = c
+		}
+	})
+	inLoop, testsCount := false, false
+	if hdrCall != nil {
+		q := an.PathQuery{Fn: rm, Target: func(i ssa.Instruction) bool { return i == hdrCall }}
+		inLoop = q.ReachableFrom(an.PointOf(hdrCall)) != nil
+		for _, b := range an.Blocks(rm) {
+			_, ci := an.IfCond(b)
+			if ci == nil || !strings.HasSuffix(clean(an.Shape(ci.X)), ".count") {
+				continue
+			}
+			// the test belongs to that loop
+			q2 := an.PathQuery{Fn: rm, Target: func(i ssa.Instruction) bool { return i == hdrCall }}
+			if q2.ReachableFrom(an.Point{B: b, Idx: -1}) != nil {
+				testsCount = true
+			}
+		}
+	}
+	r.Check(inLoop && testsCount, rule, "kafka.(*messageSetReader).readMessage reads headers until it finds a batch that has records", p.Pos(rm.Pos()),
+		"for { readHeader(); if magic != 2 || count != 0 { break } }", fmt.Sprintf("header read in a loop: %v, loop tests the record count: %v", inLoop, testsCount))
+	// (b)
+	passedField := ""
+	var passedStore *ssa.Store
+	an.EachInstr(rh, func(ins ssa.Instruction) {
+		st, ok := ins.(*ssa.Store)
+		if !ok {
+			return
+		}
+		fa, ok := st.Addr.(*ssa.FieldAddr)
+		if !ok || !an.NamedIs(fa.X.Type(), load.ModPath, "messageSetReader") {
+			return
+		}
+		s := clean(an.ShapeCanon(st.Val))
+		if strings.Contains(s, ".lastOffsetDelta") && strings.Contains(s, ".firstOffset") && strings.Contains(s, "1 +") {
+			passedField, passedStore = an.FieldName(fa.X.Type(), fa.Field), st
+		}
+	})
+	okB := passedStore != nil
+	if okB {
+		// computed before the header is reset for the next batch
+		an.EachInstr(rh, func(ins ssa.Instruction) {
+			if st, ok := fieldStoreIs(ins, "readerStack", "header"); ok {
+				q := an.PathQuery{Fn: rh, Target: func(i ssa.Instruction) bool { return i == ssa.Instruction(passedStore) }}
+				if q.ReachableFrom(an.PointOf(st)) != nil {
+					okB = false
+				}
+			}
+		})
+	}
+	r.Check(okB, rule, "kafka.(*messageSetReader).readHeader records where the batch it leaves ends", p.Pos(rh.Pos()),
+		"r.passed = firstOffset + lastOffsetDelta + 1 of the current v2 header, before the header is reset", "field: "+passedField)
+	// (c)
+	okC := false
+	if passedField != "" {
+		an.EachInstr(brm, func(ins ssa.Instruction) {
+			st, ok := fieldStoreIs(ins, "Batch", "offset")
+			if !ok || !strings.HasSuffix(clean(an.Shape(st.Val)), ".msgs."+passedField) {
+				return
+			}
+			for _, c := range guardCanon(st) {
+				if strings.Contains(c, ".msgs."+passedField) && strings.Contains(c, ".offset") {
+					okC = true // only ever moves forward
+				}
+			}
+		})
+	}
+	r.Check(okC, rule, "kafka.(*Batch).readMessage moves up to the end of the batches the reader went past when the response ends", p.Pos(brm.Pos()),
+		"if batch.msgs.passed > batch.offset { batch.offset = batch.msgs.passed } on the clean-end path", "not found")
 }
